@@ -18,9 +18,9 @@ OUTSIDE = ["histories deeper than 4", "3 connections"]
 
 PEER = B.PEER_HOSTS[0]
 STATES = [B.PEER_CONNECTING, B.PEER_CONNECTED, B.PEER_READY, B.PEER_READY_WAITING_DWA, B.PEER_DISCONNECTING, B.PEER_CLOSING, B.PEER_CLOSED]
-KINDS = ["cer", "dwr", "dpr", "ccr", "ccr_unknown_app", "ccr_wrong_realm", "ccr_missing_avp", "unknown_cmd_req",
+KINDS = ["ccr_sync_rc", "ccr_sync_no_rc", "cer", "dwr", "dpr", "ccr", "ccr_unknown_app", "ccr_wrong_realm", "ccr_missing_avp", "unknown_cmd_req",
          "cea", "dwa", "dpa", "cca", "unknown_cmd_ans"]
-DEFECTS = ["none", "no_origin_host", "no_result_code", "no_avps"]
+DEFECTS = ["none", "no_origin_host", "no_result_code", "no_avps", "t_flag"]
 
 
 def mk(kind, hbh, e2e, defect="none"):
@@ -30,7 +30,7 @@ def mk(kind, hbh, e2e, defect="none"):
         m = B.dwr(PEER, hbh, e2e)
     elif kind == "dpr":
         m = B.dpr(PEER, hbh, e2e)
-    elif kind == "ccr":
+    elif kind in ("ccr", "ccr_sync_rc", "ccr_sync_no_rc"):
         m = B.ccr(PEER, hbh, e2e)
     elif kind == "ccr_unknown_app":
         m = B.ccr(PEER, hbh, e2e, app=9)
@@ -55,7 +55,9 @@ def mk(kind, hbh, e2e, defect="none"):
         m.header.end_to_end_identifier = e2e
         m.header.application_id = 4
         return m
-    if defect == "no_origin_host":
+    if defect == "t_flag":
+        m.header.is_retransmit = True
+    elif defect == "no_origin_host":
         m.origin_host = None
     elif defect == "no_result_code" and hasattr(m, "result_code"):
         m.result_code = None
@@ -85,12 +87,17 @@ def one_step(st: int, kind: int, defect: int, raises: bool) -> bool:
     d = DEFECTS[hx.concretize_range(defect, 0, len(DEFECTS))]
     inputs = (st, kind, defect, raises)
     try:
-        b = B.Bench(n_peers=1)
+        b = B.Bench(n_peers=1, stats=True)
         n, p, app = b.node, b.peers[0], b.apps[0]
         c, s = b.make_ready(p)
         app.raise_in_handler = bool(raises)
+        app.sync_answer = {"ccr_sync_rc": "rc", "ccr_sync_no_rc": "no_rc"}.get(k)
         if k == "cca":
             n._app_waiting_answer["71:72"] = app        # somebody once sent request 71/72: the answer goes to the application
+        if raises:
+            # an earlier request of this origin with the same end-to-end id has been answered (retransmission window)
+            from collections import deque
+            n._sent_answers[PEER] = deque([72], maxlen=n.retransmit_queue_size)
         c.state = st_v
         msg = mk(k, 71, 72, d)
         try:
@@ -113,14 +120,14 @@ EVENTS = KINDS + ["app_answers_oldest", "app_answers_oldest_again"]
 
 def history(ev: List[int], df: List[int]) -> bool:
     """
-    pre: len(ev) == P["depth"] and len(df) == P["depth"] and all(0 <= e < len(EVENTS) for e in ev) and all(0 <= d <= 1 for d in df)
+    pre: len(ev) == P["depth"] and len(df) == P["depth"] and all(0 <= e < len(EVENTS) for e in ev) and all(0 <= d <= 2 for d in df)
     pre: ev[0] == P["first"] and df[0] == P["fd"]
-    pre: P["alpha"] is None or all(ev[i] in P["alpha"] and df[i] == 0 for i in range(1, len(ev)))
+    pre: P["alpha"] is None or all(ev[i] in P["alpha"] and df[i] in (0, 2) for i in range(1, len(ev)))
     post: _
     """
     hx.begin()
     try:
-        b = B.Bench(n_peers=1)
+        b = B.Bench(n_peers=1, stats=True)
         n, p, app = b.node, b.peers[0], b.apps[0]
         c, s = b.make_ready(p)
         ledger = []           # signatures of requests received and not yet answered
@@ -129,7 +136,8 @@ def history(ev: List[int], df: List[int]) -> bool:
         trace = []
         for i, e in enumerate(ev):
             name = EVENTS[hx.concretize_range(e, 0, len(EVENTS))]
-            d = "no_origin_host" if hx.concretize_range(df[i], 0, 2) else "none"
+            dv = hx.concretize_range(df[i], 0, 3)
+            d = ["none", "no_origin_host", "t_flag"][dv]
             trace.append((name, d))
             if name.startswith("app_answers"):
                 # the application answers the oldest delivered request (a second time: must not be transmitted)
@@ -147,9 +155,12 @@ def history(ev: List[int], df: List[int]) -> bool:
                     except B.NotRoutable:
                         pass
             else:
-                msg = mk(name, 500 + i, 900 + i, d)
+                # a T-flagged message repeats the end-to-end id of the last answered request
+                e2e = answered[-1][3] if (d == "t_flag" and answered) else 900 + i
+                msg = mk(name, 500 + i, e2e, d)
                 if msg.header.is_request:
                     ledger.append(sig(msg))
+                app.sync_answer = {"ccr_sync_rc": "rc", "ccr_sync_no_rc": "no_rc"}.get(name)
                 try:
                     b.inject(c, msg)
                 except Exception:
@@ -171,19 +182,19 @@ def history(ev: List[int], df: List[int]) -> bool:
 
 def specs(tier, seed, carve):
     q = tier == "quick"
-    out = [dict(id="one_step/state%d" % st, fn="one_step", params={"st": st}, timeout=600, bound="connection state %#x x 13 message kinds x 4 defect classes x handler raises/returns" % STATES[st])
+    out = [dict(id="one_step/state%d" % st, fn="one_step", params={"st": st}, timeout=600, bound="connection state %#x x 15 message kinds x 5 defect classes (incl. T flag with the id in the retransmission window) x handler raises/returns" % STATES[st])
            for st in range(len(STATES))]
     import random
     rnd = random.Random(seed)
-    firsts = [(e, d) for e in range(len(EVENTS)) for d in (0, 1)]
-    core = [EVENTS.index(x) for x in ("cer", "dwr", "ccr", "ccr_missing_avp", "cea", "cca", "app_answers_oldest", "app_answers_oldest_again")]
+    firsts = [(e, d) for e in range(len(EVENTS)) for d in (0, 1, 2)]
+    core = [EVENTS.index(x) for x in ("ccr_sync_no_rc", "dwr", "ccr", "ccr_missing_avp", "cea", "cca", "app_answers_oldest", "app_answers_oldest_again")]
     plan = [(2, firsts, None), (3, rnd.sample(firsts, 6), core) if q else (3, firsts, None)]
     if not q:
         plan.append((4, firsts, core))
     for depth, fs, alpha in plan:
         for (e, d) in fs:
-            out.append(dict(id="history/%d/%s%s" % (depth, EVENTS[e], "-noOH" if d else ""), fn="history", params={"depth": depth, "first": e, "fd": d, "alpha": alpha},
+            out.append(dict(id="history/%d/%s%s" % (depth, EVENTS[e], ["", "-noOH", "-T"][d]), fn="history", params={"depth": depth, "first": e, "fd": d, "alpha": alpha},
                             timeout=(200 if depth == 2 else 900) if depth < 4 else 6000,
-                            bound="every sequence of %d events starting with %s%s over %s x {well-formed, no Origin-Host} on a ready connection, with a ledger of unanswered requests" % (
-                                depth, EVENTS[e], " (no Origin-Host)" if d else "", ("%d kinds" % len(EVENTS)) if alpha is None else "8 core kinds (later steps well-formed)")))
+                            bound="every sequence of %d events starting with %s%s over %s x {well-formed, no Origin-Host, T flag repeating the last answered end-to-end id} on a ready connection, with a ledger of unanswered requests" % (
+                                depth, EVENTS[e], ["", " (no Origin-Host)", " (T flag)"][d], ("%d kinds" % len(EVENTS)) if alpha is None else "8 core kinds (later steps well-formed)")))
     return out
